@@ -39,7 +39,11 @@ type BOptions struct {
 	Cores     int // --localcores (default 4)
 	MemGB     int // --localmem (default 8)
 	AutoRetry int
-	Fault     *Fault
+	// JobMode: "" = local; "fake_remote" = the cluster code path with the
+	// repository's test template (jobs are started through a job script)
+	JobMode string
+	MaxJobs int
+	Fault   *Fault
 	Slow      map[string]int // job key -> milliseconds before the body
 	Gate      []string       // job keys that wait for Release
 	// mrp-side kill / signal at its KillAt-th file-system effect (fsmrp)
@@ -145,6 +149,8 @@ def _call(args, outs=None, chunk_defs=None, chunk_outs=None):
         martian.exit("verif: stage assertion")
     if fault == "sys-exit":
         sys.exit(3)
+    if fault == "sys-exit-msg":
+        sys.exit("verif: giving up")
     if fault == "exit1":
         os._exit(1)
     if fault == "kill9":
@@ -361,11 +367,18 @@ func StartB(p *progen.Program, opts *BOptions) (*BRun, error) {
 	if vdr == "" {
 		vdr = "disable"
 	}
+	jobMode := opts.JobMode
+	if jobMode == "" {
+		jobMode = "local"
+	}
 	args := []string{filepath.Join(dir, "mro", "prog.mro"), Psid, "--psdir=" + b.PsDir,
-		"--jobmode=local", "--disable-ui", "--vdrmode=" + vdr,
+		"--jobmode=" + jobMode, "--disable-ui", "--vdrmode=" + vdr,
 		"--localcores=" + strconv.Itoa(cores), "--localmem=" + strconv.Itoa(mem)}
 	if opts.Strict != "" {
 		args = append(args, "--strict="+opts.Strict)
+	}
+	if opts.MaxJobs > 0 {
+		args = append(args, "--maxjobs="+strconv.Itoa(opts.MaxJobs))
 	}
 	// jobmanagers/retry.json makes two automatic retries the default
 	args = append(args, "--autoretry="+strconv.Itoa(opts.AutoRetry))
